@@ -1242,8 +1242,9 @@ func (rl *Shell) abort() {
 	rl.Iterations.Reset()
 	rl.selection.Reset()
 
-	// Cancel active completion insertion and/or incremental search.
-	if rl.completer.AutoCompleting() || rl.completer.IsInserting() {
+	// Cancel active completion insertion and/or incremental search,
+	// or the completion menu when no candidate is inserted yet.
+	if rl.completer.AutoCompleting() || rl.completer.IsInserting() || rl.Keymap.Local() == keymap.MenuSelect {
 		rl.Hint.Reset()
 		rl.completer.ResetForce()
 
